@@ -94,7 +94,7 @@ func runC06(c *Ctx) {
 	{
 		c.Anchor("C06.1", "CreateAllocation arm")
 		ok := false
-		w.eachInstr(create, func(in ssa.Instruction) {
+		w.eachInstrDeep(create, func(in ssa.Instruction) {
 			st, isS := in.(*ssa.Store)
 			if !isS {
 				return
@@ -226,7 +226,7 @@ func runC06(c *Ctx) {
 		c.Anchor("C06.4", "expiry closure")
 		ok := false
 		why := "no store of time.AfterFunc(…) into lifetimeTimer found"
-		w.eachInstr(create, func(in ssa.Instruction) {
+		w.eachInstrDeep(create, func(in ssa.Instruction) {
 			st, isS := in.(*ssa.Store)
 			if !isS {
 				return
@@ -304,7 +304,7 @@ func runC06(c *Ctx) {
 				c.Bad("C06.6", fname(fn), what, w.instrPos(at), "the allocation timer can be armed from a source of another role: "+strings.Join(bad, ", ")+" (all sources: "+strings.Join(leafList(lv), ", ")+")")
 			}
 		}
-		w.eachInstr(create, func(in ssa.Instruction) {
+		w.eachInstrDeep(create, func(in ssa.Instruction) {
 			if call, ok := in.(*ssa.Call); ok && call.Call.StaticCallee() == afterFunc {
 				check(create, call.Call.Args[0], in, "arm duration")
 			}
